@@ -14,6 +14,7 @@ Definition run (req : sexp) : sexp :=
   | Li [At "design"; x] => run_design x
   | Li [At "contract"; x] => run_contract x
   | Li [At "files"; x] => run_files x
+  | Li [At "ssmvalid"; x] => run_ssmvalid x
   | Li [At "C13"; x] => run_C13 x
   | Li [At "sys"; x] => run_sys x
   | Li [At "des"; x] => run_des x
